@@ -770,7 +770,7 @@ class World:
         if forced is not None:
             kw["constant"] = forced
         if out_arr is not None:
-            kw["out"] = self.A[out_arr]
+            kw["out"] = (self.A[out_arr],) if ev.get("out_tuple") else self.A[out_arr]
             # is the target writeable for NumPy right now?
             if not self.A[out_arr].flags.writeable:
                 expect_fail = True
@@ -939,7 +939,7 @@ class World:
                 ret = getattr(operator, "itruediv" if form == "idiv" else form)(t, rargs[0])
             else:
                 name = UFUNC_OUT[ev["op"]]
-                kw = {"out": t}
+                kw = {"out": (t,) if ev.get("out_tuple") else t}  # NumPy's out=(x,) spelling
                 if mask is not None:
                     kw["where"] = mask
                 if ev.get("spell") == "n":
